@@ -17,7 +17,8 @@ RULE = ('valid configs (bindings string or file, include trees to depth 3, 3-15 
         'macros, imports, includes, comments/blank lines); for every insertion position (before each statement of each file, at each block-member index, '
         'at end of file) x fault kind {bad value, missing value, unbalanced open/close bracket, bad selector, unknown parameter / configurable / '
         'reference (multi-line), ambiguous macro-constant, denylisted parameter, bad include, bad import, block member: semantic / syntactic / missing "=", '
-        'tokenizer fault on the first token of the next statement, reader raising at line N} one faulty variant is parsed. Oracles: store == store of a '
+        'tokenizer fault on the first token of the next statement, source unreadable from line N on: reader\'s file object raising (readline only / every reading '
+        'method) or bytes that are not UTF-8 (binary-mode reader, binary file object, text file with the bad line beyond one decoding chunk)} one faulty variant is parsed. Oracles: store == store of a '
         'cleared config given only the preceding statements (flattened prefix text), scope/lock/parse-context depth unchanged, a follow-up parse agrees in '
         'both worlds; semantic faults keep their class (real except clause) and name file/bindings-string + line once per include level, innermost '
         'first; syntax faults report a line inside the statement span. Plus provenance: "# Set in src:line:" equals the model\'s last setter. '
@@ -74,6 +75,20 @@ DYN_OPEN_CLASS = ('unknown-configurable', 'unknown-block-header', 'unknown-refer
 DYN_ONLY_FAULTS = {'dyn-unknown-attribute': (['vfc16_dyn.nosuch.x = 1'], (Exception,), True)}
 DYN_EXCLUDED = ('denylisted-parameter',)     # the dynamically registered functions have no denylist
 
+# Faults of the READING kind: the source cannot be read / decoded from some line on (the statements on the lines before it are the "preceding
+# statements"). 'reader-raises': a registered reader's file object fails when asked for that line (through readline only, or through every reading
+# method a file object has: read / readlines / iteration fail as well, since they would have to pass the bad spot). 'undecodable-byte': the line
+# holds bytes that are not UTF-8 (written as surrogate escapes here, real bytes on disk); it reaches gin through a reader that opens files in binary
+# mode (gin decodes the lines), through a binary file object handed to parse_config, or through the ordinary text-mode reader - there Python decodes
+# in chunks, so the bad line is put beyond a padding of comment lines longer than one chunk and the number of readable lines is measured with a
+# plain readline loop (not assumed). The exception class is not named by the property for these: any Exception is accepted for the decoding fault.
+BAD_BYTE_LINES = ("c16f.x = 'caf\udce9 never applied'", "c16f.x = 'lone continuation byte \udc80'", "# a comment with a truncated sequence \udce2\udc82",
+                  "c16f.x = ['na\udcefve',", "\udcff\udcfe")
+READ_FAULTS = ('reader-raises', 'undecodable-byte')
+DELIVERIES = ('binary-reader', 'binary-fileobject', 'text-file-beyond-decoding-chunk')
+PAD_LINE = '# padding before the undecodable line: c16f.y = [ %04d ' + 'x' * 40
+PAD_BYTES = io.DEFAULT_BUFFER_SIZE + 256
+
 # Ways to drive the faulty parse (entry point / shape of the input), states it starts from, what is tried afterwards.
 ENTRIES = ('plain', 'plain', 'plain', 'list-or-filelike', 'files-and-bindings')
 # skip_unknown=True turns these kinds into non-errors (or leaves open when the error is raised): never combined
@@ -90,7 +105,8 @@ CLI_BINDINGS = ["later/c16f.y = 'command-line'"]
 CANON_SEL = {'c16f': 'c16.m.c16f', 'm.c16f': 'c16.m.c16f', 'c16g': 'c16.m.c16g', 'c16d': 'c16.m.c16d', 'vfc16_dyn.g': 'vfc16_dyn.g', 'vfc16_dyn.h': 'vfc16_dyn.h',
              'gin.macro': 'gin.macro'}
 
-REQUIRED_BUCKETS = (['fault:' + k for k in FAULTS] + ['fault:' + k for k in MEMBER_FAULTS] + ['fault:reader-raises', 'pos:first-statement', 'pos:end-of-file',
+REQUIRED_BUCKETS = (['fault:' + k for k in FAULTS] + ['fault:' + k for k in MEMBER_FAULTS] + ['fault:' + k for k in READ_FAULTS] + ['read-fault:' + d for d in DELIVERIES] + [
+                    'read-fault:file-object-readline-only', 'read-fault:file-object-full-api', 'read-fault:in-included-file', 'read-fault:after-applied-statements', 'pos:first-statement', 'pos:end-of-file',
                     'pos:in-included-file', 'pos:depth3', 'pos:after-include', 'pos:after-block', 'pos:block-member-0', 'pos:block-member-k', 'pos:after-multiline-value',
                     'root:string', 'root:file', 'followup:compared', 'message:chain-2+', 'provenance:file', 'provenance:string', 'provenance:programmatic',
                     'provenance:block-member', 'provenance:overwritten', 'provenance:macro', 'provenance:restated-same-value',
@@ -340,7 +356,8 @@ class Rendered:
     for fid, t in self.texts.items():
       path = self.path(fid)
       if (only is None or fid == only) and disk.get(path) != t:
-        with open(path, 'w') as fh:
+        # (surrogate escapes in the text stand for raw bytes that are not UTF-8)
+        with open(path, 'w', encoding='utf-8', errors='surrogateescape') as fh:
           fh.write(t)
         disk[path] = t
 
@@ -428,6 +445,8 @@ def fault_spec(kind, where, dyn):
   """(lines, exception classes, semantic?) of a fault kind at a position; `dyn`: the position lies in a dynamic-registration file."""
   if kind == 'reader-raises':
     return [], (ReaderFault,), True
+  if kind == 'undecodable-byte':
+    return [BAD_BYTE_LINES[0]], (Exception,), True
   if kind in DYN_ONLY_FAULTS:
     return DYN_ONLY_FAULTS[kind]
   lines, classes, semantic = (MEMBER_FAULTS if where[0] == 'member' else FAULTS)[kind]
@@ -451,6 +470,11 @@ def choose_mode(rng, case, where, kind, has_includes):
       mode['skip'] = ['c16_some_other_unknown', 'c16f']
   if kind == 'reader-raises' and mode['entry'] == 'list-or-filelike':
     mode['entry'] = 'plain'     # a file object opened by the caller does not go through the registered readers
+  if kind in READ_FAULTS:
+    # how the unreadable line reaches the parser / which reading methods the failing file object has / what the bad line looks like
+    mode['delivery'] = rng.choice(DELIVERIES)
+    mode['full_api'] = rng.random() < 0.5
+    mode['bad_line'] = rng.randrange(len(BAD_BYTE_LINES))
   return mode
 
 
@@ -527,7 +551,8 @@ def run_faults(ctx, case):
       for kind in kinds:
         plan.append((where, cls, depth, kind))
       if where[0] == 'item':
-        plan.append((where, cls, depth, 'reader-raises'))
+        for kind in READ_FAULTS:
+          plan.append((where, cls, depth, kind))
     if not ctx.params['all_positions']:
       plan = rng.sample(plan, min(len(plan), ctx.params['faults_per_config']))
     else:
@@ -669,9 +694,37 @@ def one_fault(ctx, case, base, where, cls, depth, kind, gin, gc, mode):
     if case['root_is_string'] and fid == '0':
       return  # a bindings string has no reader
   flines, exc_types, semantic = fault_spec(kind, where, dyn and fid == '0')
+  delivery = None
+  if kind == 'undecodable-byte':
+    delivery = mode['delivery']
+    if fid != '0' and delivery == 'binary-fileobject':
+      delivery = 'binary-reader'          # an included file is always opened by a reader
+    if fid == '0' and case['root_is_string']:
+      delivery = 'binary-fileobject'      # an in-memory source can only be undecodable as a bytes file object
+    flines = [BAD_BYTE_LINES[mode['bad_line']]]
+    if delivery == 'text-file-beyond-decoding-chunk':
+      pad, size = [], 0
+      while size < PAD_BYTES:
+        pad.append(PAD_LINE % len(pad))
+        size += len(pad[-1]) + 1
+      flines = pad + flines
   fault = {'where': where, 'lines': flines, 'kind': kind}
   r = Rendered(case, base, fault if kind != 'reader-raises' else {'where': where, 'lines': ['# reader fails before this line'], 'kind': kind}, relinc=mode['relinc'])
   r.write()
+  if delivery == 'text-file-beyond-decoding-chunk':
+    # how many lines does a plain text-mode readline loop deliver before the decoding error? (the platform's decoding chunks, measured)
+    readable = 0
+    try:
+      with open(r.path(fid)) as fh:
+        while fh.readline():
+          readable += 1
+      ctx.bucket('read-fault:text-file-decodes-in-this-locale')
+      return
+    except UnicodeDecodeError:
+      pass
+    if readable < r.fault_loc[1] - 1:
+      ctx.bucket('read-fault:padding-shorter-than-decoding-chunk')
+      return        # the error surfaces before the preceding statements' lines can be read: nothing to demand
   ctx.count('faults_injected')
   ctx.bucket('fault:' + kind)
   for c in cls:
@@ -685,6 +738,11 @@ def one_fault(ctx, case, base, where, cls, depth, kind, gin, gc, mode):
   root_string = case['root_is_string']
   if entry == 'list-or-filelike':
     entry = 'list' if (root_string and (fstart + len(prefix)) % 2) else 'filelike'
+  if kind == 'undecodable-byte':
+    if delivery == 'binary-fileobject':
+      entry = 'filelike'
+    elif ffid == '0' and entry == 'filelike' and delivery == 'binary-reader':
+      entry = 'plain'           # a file object opened by the caller does not go through the registered readers
   pcfab = entry == 'files-and-bindings'
   label = 'fault %s at %r (file f%s lines %d-%d, root %s; entry %s%s%s%s%s%s)' % (
       kind, where, ffid, fstart, fend, 'string' if root_string else 'file', entry, ', relative includes' if mode['relinc'] else '',
@@ -705,7 +763,14 @@ def one_fault(ctx, case, base, where, cls, depth, kind, gin, gc, mode):
     elif entry == 'list':
       gin.parse_config(r.as_list(), **kw)
     elif entry == 'filelike':
-      if root_string:
+      if delivery == 'binary-fileobject':
+        # a binary file object: gin decodes its lines
+        if root_string:
+          gin.parse_config(io.BytesIO(r.texts['0'].encode('utf-8', 'surrogateescape')), **kw)
+        else:
+          with open(r.path('0'), 'rb') as fh:
+            gin.parse_config(fh, **kw)
+      elif root_string:
         gin.parse_config(io.StringIO(r.texts['0']), **kw)      # no name: a 'bindings string'
       else:
         with open(r.path('0')) as fh:
@@ -732,7 +797,7 @@ def one_fault(ctx, case, base, where, cls, depth, kind, gin, gc, mode):
         self.i = 0
         self.name = target
 
-      def readline(self):
+      def readline(self, size=-1):
         self.i += 1
         if self.i >= fstart:
           raise ReaderFault(5, 'reader failed at line %d' % fstart)
@@ -744,14 +809,58 @@ def one_fault(ctx, case, base, where, cls, depth, kind, gin, gc, mode):
       def __exit__(self, *a):
         return False
 
+    class FailingFullFile(FailingFile):
+      """The same source with all the reading methods of a file object: whatever has to pass the bad spot fails there."""
+
+      def read(self, size=-1):
+        if size is None or size < 0:
+          out = []
+          while True:
+            out.append(self.readline())     # (raises at the bad line: the rest of the source cannot be delivered)
+            if not out[-1]:
+              return ''.join(out)
+        return self.readline()[:size] if size else ''
+
+      def readlines(self, hint=-1):
+        return list(self)
+
+      def readable(self):
+        return True
+
+      def __iter__(self):
+        return self
+
+      def __next__(self):
+        line = self.readline()
+        if not line:
+          raise StopIteration
+        return line
+
+      def close(self):
+        pass
+
     def reader(path):
-      return FailingFile()
+      return (FailingFullFile if mode['full_api'] else FailingFile)()
 
     def exists(path):
       return path == target
     saved = list(gc._FILE_READERS)
     gc._FILE_READERS[:] = [(reader, exists)] + saved
     reader_installed = saved
+    ctx.bucket('read-fault:file-object-full-api' if mode['full_api'] else 'read-fault:file-object-readline-only')
+  elif delivery == 'binary-reader':
+    # the file `ffid` is served by a reader that opens files in binary mode (lines arrive as bytes, gin decodes them)
+    target = r.path(ffid)
+    saved = list(gc._FILE_READERS)
+    gc._FILE_READERS[:] = [(lambda path: open(path, 'rb'), lambda path: path == target)] + saved
+    reader_installed = saved
+  if kind in READ_FAULTS:
+    if delivery:
+      ctx.bucket('read-fault:' + delivery)
+    if ffid != '0':
+      ctx.bucket('read-fault:in-included-file')
+    if any(r.key_of(f, i, m) is not None for (f, i, m, _) in applied):
+      ctx.bucket('read-fault:after-applied-statements')
   exc = None
   attempts = 2 if mode['double'] else 1
   raised = 0
@@ -881,6 +990,8 @@ def one_fault(ctx, case, base, where, cls, depth, kind, gin, gc, mode):
       key = 'block-member-syntax-fault-drops-earlier-members'
     elif kind in ('tokenizer-fault-next-statement', 'reader-raises') and missing_only:
       key = 'tokenizer-fault-in-next-statement-preempts-previous-statement'
+    elif kind == 'undecodable-byte' and missing_only:
+      key = 'unreadable-line-preempts-preceding-statements'
     ctx.check(False, key, '%s: after the failed parse the store differs from the prefix (failed, prefix): %r' % (label, {k: d[k] for k in list(d)[:4]}),
               {'texts': r.texts, 'prefix': ptext})
   else:
@@ -906,8 +1017,8 @@ def one_fault(ctx, case, base, where, cls, depth, kind, gin, gc, mode):
   if semantic:
     ctx.count('messages_checked')
     found = [(m.group(1) if m.group(1) is not None else None, int(m.group(3))) for m in LOC.finditer(str(exc))]
-    if kind == 'reader-raises':
-      # the failing reader is reported by the including statements only
+    if kind in READ_FAULTS:
+      # the failing reader / the undecodable line is reported by the including statements only
       want = [(names[f], ln) for f, ln in chain[1:]]
       ctx.check(same(found, want), 'error-location-chain', '%s: message names %r, expected include chain %r' % (label, found, want))
     else:
@@ -1053,7 +1164,7 @@ def run_case(ctx, case):
     run_provenance(ctx, case)
 
 
-LEVEL_TEXT = ('Fault enumeration at run time: for each generated config (include trees to depth 3) a faulty statement of each of 26 kinds is injected at '
+LEVEL_TEXT = ('Fault enumeration at run time: for each generated config (include trees to depth 3) a faulty statement of each of 27 kinds is injected at '
               'every statement position / block-member index / end of file (all of them in thorough, a sample in quick) and the real parser is run; '
               'the store after the failure is compared with the store of a cleared config given the flattened prefix, scope/lock/parse-context depth '
               'are compared, a follow-up parse is compared in both worlds, the exception class is checked with a real except clause and the message\'s '
